@@ -38,6 +38,14 @@ func addORShortcut(node schema.Node, rootSchema *schema.Schema, val string) {
 
 	ss := constraint.NewTypesList(jschema.RuleASTNodeSourceGenerated)
 	for _, s := range strings.Split(val, "|") {
+		if strings.TrimSpace(s) == "" {
+			// "@foo |" with nothing after the pipe.
+			panic(lexeme.NewLexEventError(
+				node.BasisLexEventOfSchemaForNode(),
+				errors.Format(errors.ErrInvalidSchemaName, val),
+			))
+		}
+
 		typ := schema.New()
 		typ.SetRootNode(node)
 
